@@ -383,7 +383,9 @@ struct QueueEngine : Engine
 		else s += "per queue every arrival is matched to exactly one departure or one drop report using a shadow byte account. ";
 		s += "a quarter of the runs instead take a TCP/UDP program of the tcp engine (payload, ACKs, SYN, SYN-ACK, EOF, retransmissions, datagrams over multi-hop routes with "
 			"finite queues and fault sinks) and apply the same per-queue oracle to every queue hop of that run. ";
-		return s + "distinct = distinct shape hash of the packet/drop event sequence; non-trivial = a queue had a backlog or tail-dropped while also forwarding";
+		return s + "In the direct mode application timers share the timer queue with the hops' (armed for a hop's forward instant and taken out again, move-assigned while armed) "
+			"and the simulation is stopped and restarted around injections; in the real-traffic mode C09 also bounds the UDP one-way delay by the sums along the configured route. "
+			"distinct = distinct shape hash of the packet/drop event sequence; non-trivial = a queue had a backlog or tail-dropped while also forwarding";
 	}
 	int64_t budget(std::string const&, int tier) const override { return tier ? 600000 : 20000; }
 	std::vector<std::string> stub_components() const override
